@@ -292,6 +292,26 @@ def run_case(ctx, rng, kind, centered, n_dim, n_cov, n_ids, sel_mode,
                       'psi_relation:' + kind,
                       {'covariate_model': psi, 'per_individual': psi_ref,
                        'case': feats}, feats)
+    # what an evaluation returned stays what it was when the model is
+    # evaluated again at other parameters / covariates (one list of results
+    # per posterior draw is the usual way to summarise a fit)
+    try:
+        held = model.compute_individual_parameters(top, obs, cov)
+        snap = np.array(held, dtype=float)
+        top2 = np.array(top, dtype=float) * 1.05 + 0.01
+        cov2 = np.array(cov, dtype=float)[::-1] * 0.7 + 0.1
+        model.compute_individual_parameters(top2, obs, cov2)
+        model.compute_log_likelihood(top2, obs, cov2)
+        ctx.count('held_results_rechecked')
+        if not np.array_equal(np.asarray(held, dtype=float), snap):
+            ctx.violation('returned_result_not_rewritten_by_later_calls',
+                          'held_individual_parameters:' + kind,
+                          {'returned': snap,
+                           'after_next_evaluation': np.asarray(held),
+                           'case': feats}, feats)
+    except Exception as e:      # noqa
+        ctx.violation_exc('evaluation_raises', e,
+                          {'case': feats, 'call': 'second evaluation'}, feats)
     if zero and kind in 'GLT':
         # coincides with the underlying model at vartheta_0
         v0 = base.compute_log_likelihood(np.array(top[:nb]), obs)
